@@ -25,12 +25,24 @@ def corpus():
     t = os.path.join(REPO, "mfront/tests")
     c = []
     props = ["YoungModulusTest", "PoissonRatioTest", "ErrnoHandlingCheck", "YoungModulusBoundsCheck", "VanadiumAlloy_PoissonRatio_SRMA", "T91MartensiticSteel_ThermalExpansion_ROUX2007", "Inconel600_YoungModulus"]
-    for p in props:
+    for k, p in enumerate(props):
         f = os.path.join(t, "properties", p + ".mfront")
         if os.path.exists(f):
             c += [(f, "c"), (f, "cxx")]
+            if k < 4:
+                c.append((f, "octave"))    # registers specific targets ("target : {...}" entries and dependencies of the target "all")
+            if k in (1, 4):
+                c.append((f, "excel"))
     for b in ["Norton", "Elasticity", "Plasticity", "Chaboche", "Mazars"]:
         f = os.path.join(t, "behaviours", b + ".mfront")
+        if os.path.exists(f):
+            c.append((f, "generic"))
+    # a behaviour using @MaterialLaw: its library depends on a second library (MFrontMaterialLaw) registered by the same run
+    f = os.path.join(t, "behaviours", "T91ViscoplasticBehaviour.mfront")
+    if os.path.exists(f):
+        c.append((f, "generic", "--search-path=" + os.path.join(t, "properties")))
+    for m in ["B4C_ConcentrationModel", "UO2_Shrinkage_RAPHAEL2008"]:
+        f = os.path.join(t, "models", m + ".mfront")
         if os.path.exists(f):
             c.append((f, "generic"))
     if len(c) < 6:   # the corpus moved: fall back on whatever properties exist
@@ -46,7 +58,7 @@ def mfront(wd, inp, extra_env=None):
     env["VPRE_SEM_PRIVATE"] = "1"   # killed runs must not leave the user's real /dev/shm semaphore locked
     if extra_env:
         env.update(extra_env)
-    p = subprocess.run([MF, "--interface=" + inp[1], inp[0]], cwd=wd, env=env, stdout=subprocess.PIPE, stderr=subprocess.STDOUT, text=True)
+    p = subprocess.run([MF, "--interface=" + inp[1]] + list(inp[2:]) + [inp[0]], cwd=wd, env=env, stdout=subprocess.PIPE, stderr=subprocess.STDOUT, text=True)
     return p.returncode, p.stdout
 
 
@@ -140,8 +152,16 @@ def union(a, b):
             else:
                 m[f] = va if va is not None else vb
         out["libraries"][n] = m
-    for n, t in b["targets"].items():
-        out["targets"].setdefault(n, t)
+    for n in sorted(set(a["targets"]) | set(b["targets"])):
+        ta, tb = a["targets"].get(n, {}), b["targets"].get(n, {})
+        m = {}
+        for f in sorted(set(ta) | set(tb)):
+            va, vb = ta.get(f), tb.get(f)
+            if isinstance(va, frozenset) or isinstance(vb, frozenset):
+                m[f] = frozenset(va or ()) | frozenset(vb or ())
+            else:
+                m[f] = va if va is not None else vb
+        out["targets"][n] = m
     return out
 
 
@@ -156,6 +176,12 @@ def includes(big, small):
                 miss.append("%s.%s: %s" % (n, f, sorted(v - frozenset(big["libraries"][n].get(f, ())))))
     if not set(small["headers"]) <= set(big["headers"]):
         miss.append("headers %s" % sorted(set(small["headers"]) - set(big["headers"])))
+    for n, t in small["targets"].items():   # specific targets (e.g. the .oct files of the octave interface and the dependencies of "all")
+        if n not in big["targets"]:
+            miss.append("target %s" % n); continue
+        for f, v in t.items():
+            if isinstance(v, frozenset) and not v <= frozenset(big["targets"][n].get(f, ())):
+                miss.append("target %s.%s: %s" % (n, f, sorted(v - frozenset(big["targets"][n].get(f, ())))))
     return miss
 
 
@@ -174,6 +200,16 @@ def gen_history(seed, tier, cps):
         runs = [(k * 3 + seed) % len(cps) for k in range(n)]
     if r.chance(1, 2) and n >= 2:
         runs[r.range(1, n - 1)] = runs[0]          # repetition of an input already registered
+    if r.chance(1, 3) and n >= 2:
+        # two different inputs for the same interface: they contribute to the same library and, for octave, to the same target "all"
+        same = [j for j in range(len(cps)) if cps[j][1] == cps[runs[0]][1] and j != runs[0]]
+        if same:
+            runs[n - 1 if n < 12 else 1] = same[r.range(0, len(same) - 1)]
+    if r.chance(1, 4) and n >= 2:
+        octs = [j for j in range(len(cps)) if cps[j][1] == "octave"]
+        if len(octs) >= 2:
+            a = r.range(0, len(octs) - 1); b = (a + r.range(1, len(octs) - 1)) % len(octs)
+            runs[0], runs[1] = octs[a], octs[b]
     crash_at = r.range(1, n - 1) if n < 12 else n - 1   # index of the crashing run (at least one completed run before it)
     follow = [r.range(0, len(cps) - 1) for _ in range(r.range(1, 2))]
     if r.chance(1, 2):
